@@ -12,6 +12,7 @@ import (
 	"github.com/attestantio/go-eth2-client/spec/phase0"
 	"github.com/attestantio/vouch/internal/vnd"
 	"github.com/attestantio/vouch/internal/vstub"
+	"github.com/rs/zerolog"
 )
 
 // outcome of a provider
@@ -32,9 +33,14 @@ type c07Provider struct {
 	calls   int
 }
 
-func (p *c07Provider) AttestationData(_ context.Context, _ *api.AttestationDataOpts) (*api.Response[*phase0.AttestationData], error) {
+func (p *c07Provider) AttestationData(ctx context.Context, _ *api.AttestationDataOpts) (*api.Response[*phase0.AttestationData], error) {
 	p.calls++
-	vnd.Sleep(p.latency) // the node answers after its latency whatever the caller's context does
+	// like a real HTTP client the node stub gives up when the context it was called with ends
+	select {
+	case <-ctx.Done():
+		return nil, ctx.Err()
+	case <-time.After(p.latency):
+	}
 	switch p.outcome {
 	case oError:
 		return nil, errors.New("mock provider error")
@@ -55,6 +61,15 @@ func (c *c07Cache) BlockRootToSlot(_ context.Context, root phase0.Root) (phase0.
 
 const c07Slot = phase0.Slot(32*10 + 5)
 
+// c07New builds the strategy the way main does: through New.
+func c07New(timeout time.Duration, ct *vstub.ChainTime, cache *c07Cache, providers map[string]eth2client.AttestationDataProvider) *Service {
+	s, err := New(context.Background(), WithLogLevel(zerolog.Disabled), WithClientMonitor(vstub.ClientMonitor{}),
+		WithTimeout(timeout), WithProcessConcurrency(int64(len(providers))), WithAttestationDataProviders(providers),
+		WithChainTime(ct), WithBlockRootToSlotCache(cache))
+	vnd.Assert(err == nil && s != nil, "C07.new.accepted")
+	return s
+}
+
 // c07Setup builds n providers with symbolic latency and outcome; valid
 // responses differ in source epoch and head slot (concrete choices, so that the
 // float64 scores are computed exactly).
@@ -64,8 +79,7 @@ func c07Setup(n int) (*Service, []*c07Provider, time.Duration) {
 	cache := &c07Cache{slots: map[phase0.Root]phase0.Slot{}}
 	timeout := time.Duration(vnd.I64("timeout"))
 	vnd.Assume(timeout >= 2 && timeout <= 60000) // virtual nanoseconds: only the order of instants matters
-	s := &Service{clientMonitor: vstub.ClientMonitor{}, timeout: timeout, chainTime: ct, blockRootToSlotCache: cache,
-		attestationDataProviders: map[string]eth2client.AttestationDataProvider{}}
+	providers := map[string]eth2client.AttestationDataProvider{}
 	provs := make([]*c07Provider, n)
 	for i := 0; i < n; i++ {
 		p := &c07Provider{name: []string{"node-a", "node-b", "node-c"}[i]}
@@ -87,9 +101,9 @@ func c07Setup(n int) (*Service, []*c07Provider, time.Duration) {
 			p.data.Target.Epoch = phase0.Epoch(9 + 2*vnd.Choose("wrong.epoch", 2)) // 9 or 11
 		}
 		provs[i] = p
-		s.attestationDataProviders[p.name] = p
+		providers[p.name] = p
 	}
-	return s, provs, timeout
+	return c07New(timeout, ct, cache, providers), provs, timeout
 }
 
 // VerifC07_Best: the best strategy returns within its timeout the
